@@ -38,7 +38,10 @@ EXTRA = {
            "seeds on fresh and long-lived stream objects.",
     "C13": " Plus one updater and one stream set through 48 replications in "
            "four orders, and a stream known under another name later.",
-    "C15": " Plus the pmf for parameters at the closed end of their range.",
+    "C15": " Plus the pmf for parameters at the closed end of their range, "
+           "and for 25 samplers with 5-200 uniforms per draw the mean and "
+           "spread of the draws over all points of a rank-one lattice "
+           "(coarse: 0.15 sd).",
     "C16": " Plus refused operations with zero-valued operands and power "
            "chains to the 14th power.",
     "C17": " Plus text rendering of very large / very small display values.",
